@@ -3,6 +3,7 @@
 # run ./check, restore.  usage: PYG_REPO=/dev/shm/w3/repo tools/run_mutants.sh C09
 cd "$(dirname "$0")/.."
 : "${PYG_REPO:?set PYG_REPO to a scratch worktree}"
+export VERIF_EVIDENCE_DIR="${VERIF_EVIDENCE_DIR:-/dev/shm/mutant-evidence}"
 [ "$PYG_REPO" = "/repo" ] && { echo "refusing to mutate /repo"; exit 2; }
 pid=$1
 for p in mutants/$pid-*.patch; do
